@@ -870,6 +870,8 @@ C09_MODULES.update({
              "require('Module:polyfill') return 'A' .. x .. tostring(string.trim2) end\nreturn e",
     "nesta2": "local e = {}\nfunction e.main(frame) local x = frame:expandTemplate{title='cnt'} .. frame:expandTemplate{title='cnt'} "
               "require('Module:polyfill') return 'A2' .. tostring(table.size2) end\nreturn e",
+    "boom": "local e = {}\nfunction e.main(frame) BOOM_G = 1 error('boom') end\nreturn e",
+    "boomload": "BOOML_G = 1\nerror('boom while loading')",
     "probe2": "local e = {}\nfunction e.main(frame) return 'p2=' .. tostring(string.trim2) .. tostring(table.size2) .. tostring(mw.compat_loaded) end\nreturn e",
 })
 C09_TEMPLATES = dict(STD_TEMPLATES, **{"cnt": "{{#invoke:counter|main}}/{{#invoke:counter|main}}"})
@@ -996,6 +998,30 @@ def impl_c11(case, scratch):
             json.dump(over, f)
         extra = {"json": jpath, "close": case.get("close", True), "pages": [["Page %d" % i, "new %d" % i] for i in range(n)],
                  "mid": [["Page %d" % i, "mid %d" % i] for i in range(n)]}
+        shape = case.get("shape")
+        if shape:
+            # several override paths: which of them contribute pages, in which format, and whether a template is among them
+            def mk(name, content=None, files=None):
+                q = os.path.join(d, name)
+                if files is not None:
+                    os.makedirs(q)
+                    for fn, body in files.items():
+                        with open(os.path.join(q, fn), "w") as f:
+                            f.write(body)
+                elif content is not None:
+                    with open(q, "w") as f:
+                        f.write(content)
+                return q
+            tmpl = json.dumps({"Template:T": {"namespace_id": 10, "body": "new tmpl"}, "Page 1": {"namespace_id": 0, "body": "new 1"}})
+            parts = {
+                "json": jpath, "missing": os.path.join(d, "nope"), "emptydir": mk("ed", files={}) if "emptydir" in shape else None,
+                "dotdir": mk("dd", files={".gitkeep": "", "x.json": "{}"}) if "dotdir" in shape else None,
+                "emptyjson": mk("e.json", "{}") if "emptyjson" in shape else None,
+                "textfile": mk("notes.txt", "TITLE: Page 3\nnew 3") if "textfile" in shape else None,
+                "dir": mk("od", files={"p1": "TITLE: Page 1\nnew 1", "p5": "TITLE: Page 5\nnew 5"}) if "dir" in shape.split("+") else None,
+                "tmpl": mk("t.json", tmpl) if "tmpl" in shape else None,
+            }
+            extra["paths"] = [parts[x] for x in shape.split("+")]
         sc = case["scenario"]
         pre = []
         if sc in ("restore", "restore-dirty"):
@@ -1181,8 +1207,11 @@ def impl_c06_probes(case, scratch):
         target = os.path.join(scratch, "written_%d.txt" % os.getpid())
         touched = os.path.join(scratch, "touched_%d" % os.getpid())
         outs = {}
+        secret_lua = os.path.join(scratch, "secretmod_%d" % os.getpid())
+        open(secret_lua + ".lua", "w").write("return {leak = 'TOPSECRETLUA'}")
         for n in names:
-            arg = {"confirm-file-read": secret, "confirm-file-write": target, "confirm-command": touched}.get(n, "x")
+            arg = {"confirm-file-read": secret, "confirm-file-write": target, "confirm-command": touched,
+                   "confirm-require-abs-lua": secret_lua, "confirm-require-rel-lua": secret_lua}.get(n, "x")
             ctx.start_page("Tt")
             try:
                 outs[n] = ctx.expand("{{#invoke:probe %s|main|%s}}" % (n, arg), timeout=5)[:200]
